@@ -87,6 +87,9 @@ func (w pipeWriter) Write(b []byte) (int, error) {
 	p.buf = append(p.buf, b...)
 	p.Writes = append(p.Writes, len(p.buf))
 	p.broadcast()
+	if len(b) > 0 && !s.dead.Load() {
+		s.Progress()
+	}
 	return len(b), nil
 }
 
@@ -142,6 +145,9 @@ func (r pipeReader) Read(b []byte) (int, error) {
 			copy(b, p.buf[p.readOff:p.readOff+n])
 			p.readOff += n
 			p.mu.Unlock()
+			if !s.dead.Load() {
+				s.Progress()
+			}
 			return n, nil
 		}
 		if p.wClosed {
